@@ -416,6 +416,72 @@ static Result check_grid(const J &c)
           if (match[i] < 0) return Result::fail("grid-node-not-on-lattice", type + ": node " + std::to_string(i) + " (" + fmt(n.x) + "," + fmt(n.y) + "," + fmt(n.z) + ") is not a node of the requested lattice");
         }
     }
+  if (type == "sphere")
+    {
+      // The sphere grid is a closed shell mesh: 12 blocks of nx x nx quadrilaterals, extruded through nz layers. Without re-deriving
+      // the block mapping: (1) 12 nx^2 nz cells; (2) by Euler's formula a closed quadrilateral surface with 12 nx^2 faces has
+      // 12 nx^2 + 2 vertices, so (12 nx^2 + 2)(nz + 1) nodes, that many on each of the nz + 1 equally spaced radii from z_min to
+      // z_max; (3) every cell joins 4 nodes of one shell with 4 nodes of the next; (4) the inner faces of each layer cover the
+      // whole sphere exactly once: their solid angles (absolute values) add up to 4 pi - a gap makes the sum smaller, an overlap larger.
+      const size_t want = 12 * nx * nx * nz, want_nodes = (12 * nx * nx + 2) * (nz + 1);
+      if (ncell != want) return Result::fail("grid-cell-count", "sphere: " + std::to_string(ncell) + " cells written, 12 nx^2 nz = " + std::to_string(want));
+      if (np != want_nodes) return Result::fail("grid-node-count", "sphere: " + std::to_string(np) + " nodes written, a closed shell mesh of 12 nx^2 faces and nz layers has " + std::to_string(want_nodes));
+      const double dr = (z_max - z_min) / static_cast<double>(nz);
+      std::vector<size_t> per_shell(nz + 1, 0);
+      std::vector<int> shell_of(np, -1);
+      for (size_t i = 0; i < np; ++i)
+        {
+          const Node n = file_node(i);
+          const double rad = std::sqrt(n.x * n.x + n.y * n.y + n.z * n.z);
+          const double kf = (rad - z_min) / dr;
+          const long k = std::lround(kf);
+          if (k < 0 || k > static_cast<long>(nz) || std::fabs(kf - static_cast<double>(k)) * dr > 2e-5 * z_max)
+            return Result::fail("grid-node-not-on-lattice", "sphere: node " + std::to_string(i) + " has radius " + fmt(rad) + ", not one of the " + std::to_string(nz + 1) + " equally spaced radii between " + fmt(z_min) + " and " + fmt(z_max));
+          per_shell[static_cast<size_t>(k)]++;
+          shell_of[i] = static_cast<int>(k);
+        }
+      for (size_t k = 0; k <= nz; ++k)
+        if (per_shell[k] != 12 * nx * nx + 2) return Result::fail("grid-node-count", "sphere: the shell at radius " + fmt(z_min + dr * static_cast<double>(k)) + " has " + std::to_string(per_shell[k]) + " nodes, a closed quadrilateral surface of 12 nx^2 faces has " + std::to_string(12 * nx * nx + 2));
+      std::vector<double> solid(nz, 0.0);
+      auto unit = [&](size_t id, double *u) { const Node n = file_node(id); const double rr = std::sqrt(n.x * n.x + n.y * n.y + n.z * n.z); u[0] = n.x / rr; u[1] = n.y / rr; u[2] = n.z / rr; };
+      auto tri_angle = [&](const double *a, const double *b, const double *cc) {
+        const double det = a[0] * (b[1] * cc[2] - b[2] * cc[1]) - a[1] * (b[0] * cc[2] - b[2] * cc[0]) + a[2] * (b[0] * cc[1] - b[1] * cc[0]);
+        const double ab = a[0] * b[0] + a[1] * b[1] + a[2] * b[2], bc = b[0] * cc[0] + b[1] * cc[1] + b[2] * cc[2], ca = cc[0] * a[0] + cc[1] * a[1] + cc[2] * a[2];
+        return std::fabs(2 * std::atan2(det, 1 + ab + bc + ca)); // Van Oosterom & Strackee
+      };
+      for (size_t i = 0; i < ncell; ++i)
+        {
+          std::vector<size_t> lower, upper;
+          int k0 = 1 << 30;
+          for (size_t k = 0; k < 8; ++k) k0 = std::min(k0, shell_of[static_cast<size_t>(v.arrays.at("connectivity")[i * 8 + k])]);
+          for (size_t k = 0; k < 8; ++k)
+            {
+              const size_t id = static_cast<size_t>(v.arrays.at("connectivity")[i * 8 + k]);
+              if (shell_of[id] == k0) lower.push_back(id); else if (shell_of[id] == k0 + 1) upper.push_back(id);
+            }
+          if (lower.size() != 4 || upper.size() != 4) return Result::fail("grid-cell-shape", "sphere: cell " + std::to_string(i) + " does not join four nodes of one shell with four nodes of the next");
+          // the four lower nodes in the order the cell lists them form the quadrilateral (VTK hexahedron: 0-1-2-3 bottom)
+          double u[4][3];
+          for (size_t k = 0; k < 4; ++k) unit(lower[k], u[k]);
+          // as a set of 4 points on the sphere: order them around their centroid to get the quadrilateral
+          double cx = 0, cy = 0, cz = 0;
+          for (auto &w : u) { cx += w[0]; cy += w[1]; cz += w[2]; }
+          const double cn = std::sqrt(cx * cx + cy * cy + cz * cz); cx /= cn; cy /= cn; cz /= cn;
+          // tangent frame at the centroid
+          double e1[3] = {u[0][0] - cx * (u[0][0] * cx + u[0][1] * cy + u[0][2] * cz), u[0][1] - cy * (u[0][0] * cx + u[0][1] * cy + u[0][2] * cz), u[0][2] - cz * (u[0][0] * cx + u[0][1] * cy + u[0][2] * cz)};
+          const double e1n = std::sqrt(e1[0] * e1[0] + e1[1] * e1[1] + e1[2] * e1[2]);
+          for (double &x : e1) x /= e1n;
+          const double e2[3] = {cy * e1[2] - cz * e1[1], cz * e1[0] - cx * e1[2], cx * e1[1] - cy * e1[0]};
+          std::array<std::pair<double, size_t>, 4> ang;
+          for (size_t k = 0; k < 4; ++k) ang[k] = {std::atan2(u[k][0] * e2[0] + u[k][1] * e2[1] + u[k][2] * e2[2], u[k][0] * e1[0] + u[k][1] * e1[1] + u[k][2] * e1[2]), k};
+          std::sort(ang.begin(), ang.end());
+          solid[static_cast<size_t>(k0)] += tri_angle(u[ang[0].second], u[ang[1].second], u[ang[2].second]) + tri_angle(u[ang[0].second], u[ang[2].second], u[ang[3].second]);
+        }
+      for (size_t k = 0; k < nz; ++k)
+        if (std::fabs(solid[k] - 4 * PI) > 1e-3)
+          return Result::fail("grid-sphere-coverage", "sphere: the cells of layer " + std::to_string(k) + " subtend a solid angle of " + fmt(solid[k]) + ", the whole sphere is " + fmt(4 * PI));
+      r.classes.push_back("sphere: shell structure and full coverage verified");
+    }
   // ---- (c) depth, (d) values
   PropList pl = {{{1, 0, 0}}, {{5, 0, 0}}, {{4, 0, 0}}};
   for (unsigned k = 0; k < ncomp; ++k) pl.push_back({{2, k, 0}});
@@ -524,6 +590,6 @@ int main(int argc, char **argv)
 {
   return run_main("C18", argc, argv,
   {
-    {"grid", "worlds with a cross section x grid files: cartesian / chunk (2D and 3D), annulus (2D), sphere (3D); bounds, 1..12 x 1..8 x 1..10 cells, 0..4 compositions, -j 1/2/3/7, --filtered / --by-tag. Oracle: (a) well-formed VTU (counts, array sizes, index ranges, offsets, cell types, no degenerate cell), (b) node multiset = the requested lattice and cell count = the requested product (cartesian, chunk; annulus with the derived tangential count; sphere: well-formedness and values only), (c) Depth = distance below the top, (d) every node value = the library's answer at the lattice node (print precision, boundary-robust), (e) filtered / by-tag files = the cells of the main file selected by the tag rule. Non-trivial: some node inside a feature and >=2 distinct tags in the mesh", 40, gen_grid, check_grid},
+    {"grid", "worlds with a cross section x grid files: cartesian / chunk (2D and 3D), annulus (2D), sphere (3D); bounds, 1..12 x 1..8 x 1..10 cells, 0..4 compositions, -j 1/2/3/7, --filtered / --by-tag. Oracle: (a) well-formed VTU (counts, array sizes, index ranges, offsets, cell types, no degenerate cell), (b) node multiset = the requested lattice and cell count = the requested product (cartesian, chunk; annulus with the derived tangential count; sphere: cell and node counts of a closed 12 nx^2-face shell mesh, equally spaced radii, every cell between two consecutive shells, solid angle 4 pi per layer), (c) Depth = distance below the top, (d) every node value = the library's answer at the lattice node (print precision, boundary-robust), (e) filtered / by-tag files = the cells of the main file selected by the tag rule. Non-trivial: some node inside a feature and >=2 distinct tags in the mesh", 40, gen_grid, check_grid},
   });
 }
